@@ -578,3 +578,58 @@ def long_scope_programs(chk):
         p.fixed = []
         out.append(p)
     return out
+
+
+# ----------------------------------------------------------------------------- variables bound together, one shadowed, used together again
+def shadow_product_programs():
+    """several variables bound by ONE pattern (tuple / array pattern, parameter list), one of them re-bound afterwards (same type;
+    in the same block, in a nested block, by a nested pattern), then all of them used together in their original order as a tuple,
+    an array or an argument list: every use denotes the newest binding.  Outcome fixed by construction."""
+    from checks.c08 import Prog
+    out = []
+    binds = [
+        ("tuple", "let (a, b): (u8, u8) = (1, 2);"),
+        ("array", "let [a, b]: [u8; 2] = [1, 2];"),
+        ("nested", "let ((a, b), c): ((u8, u8), u8) = ((1, 2), 3);"),
+        ("triple", "let (a, b, c): (u8, u8, u8) = (1, 2, 3);"),
+    ]
+    shadows = [
+        ("first", "let a: u8 = 7;", (7, 2)),
+        ("second", "let b: u8 = 9;", (1, 9)),
+        ("both-swapped", "let (b, a): (u8, u8) = (a, b);", (2, 1)),
+        ("nested-pattern", "let ((a, k), m): ((u8, u8), u8) = ((7, 0), 0);", (7, 2)),
+        ("self", "let a: u8 = jet::xor_8(a, 4);", (5, 2)),
+    ]
+    uses = [
+        ("tuple", "let (x, y): (u8, u8) = (a, b);"),
+        ("array", "let [x, y]: [u8; 2] = [a, b];"),
+        ("call", "let (x, y): (u8, u8) = pair(a, b);"),
+        ("jet", "let x: u8 = jet::xor_8(a, b); let y: u8 = jet::xor_8(x, a);"),
+        ("in-block", "let (x, y): (u8, u8) = { (a, b) };"),
+    ]
+    for bn, b in binds:
+        for sn, sh, (va, vb) in shadows:
+            for un, u in uses:
+                if un == "jet":
+                    ex, ey = va ^ vb, vb
+                else:
+                    ex, ey = va, vb
+                for place in ("same", "inner"):
+                    if place == "same":
+                        body = "%s %s %s assert!(jet::eq_8(x, %d)); assert!(jet::eq_8(y, %d));" % (b, sh, u, ex, ey)
+                    else:
+                        # the shadowing binding lives in a nested block; after the block the outer bindings count again
+                        body = ("%s { %s %s assert!(jet::eq_8(x, %d)); assert!(jet::eq_8(y, %d)); }; let (p, q): (u8, u8) = (a, b); assert!(jet::eq_8(p, 1)); assert!(jet::eq_8(q, 2));"
+                                % (b, sh, u, ex, ey))
+                    p = Prog("fn pair(a: u8, b: u8) -> (u8, u8) { (a, b) }\nfn main() { %s }" % body, [], "shadow-product/%s/%s/%s/%s" % (bn, sn, un, place))
+                    p.expect = "ok"
+                    p.fixed = []
+                    out.append(p)
+    # parameters of a function bound together, one shadowed in the body
+    for sn, sh, (va, vb) in shadows[:3] + shadows[4:]:
+        p = Prog("fn pair(a: u8, b: u8) -> (u8, u8) { (a, b) }\nfn g(a: u8, b: u8) -> (u8, u8) { %s pair(a, b) }\nfn main() { let (x, y): (u8, u8) = g(1, 2); assert!(jet::eq_8(x, %d)); assert!(jet::eq_8(y, %d)); }"
+                 % (sh, va, vb), [], "shadow-product/params/%s" % sn)
+        p.expect = "ok"
+        p.fixed = []
+        out.append(p)
+    return out
